@@ -662,8 +662,14 @@ func tripleImportRun(fa, f1, f2, f3 string) (string, cliResult) {
 	docs := []map[string]interface{}{
 		{"import": []interface{}{"one." + f1, "two." + f2, "three." + f3}, "tasks": map[string]interface{}{"tmain": map[string]interface{}{"command": []interface{}{"echo main"}}}},
 		{"tasks": map[string]interface{}{"t1": map[string]interface{}{"command": []interface{}{"echo one"}}}, "variables": map[string]interface{}{"From1": "yes"}},
-		{"tasks": map[string]interface{}{"shared": map[string]interface{}{"command": []interface{}{"echo shared $A $B"}, "env": map[string]interface{}{"A": "from-two"}}}},
-		{"tasks": map[string]interface{}{"shared": map[string]interface{}{"env": map[string]interface{}{"B": "from-three"}, "description": "extended by the third import"}}},
+		{"tasks": map[string]interface{}{
+			"shared":  map[string]interface{}{"command": []interface{}{"echo shared $A $B $V"}, "env": map[string]interface{}{"A": "from-two"}, "variations": []interface{}{map[string]interface{}{"V": "v1"}}},
+			"shared2": map[string]interface{}{"command": []interface{}{"echo shared2 $C $D {{ .X }} {{ .Y }}"}, "env": map[string]interface{}{"C": "c-two"}, "variables": map[string]interface{}{"X": "x-two", "Y": "y-two"}},
+		}, "contexts": map[string]interface{}{"cx": map[string]interface{}{"env": map[string]interface{}{"K": "k-two"}}}},
+		{"tasks": map[string]interface{}{
+			"shared":  map[string]interface{}{"env": map[string]interface{}{"B": "from-three"}, "description": "extended by the third import", "variations": []interface{}{map[string]interface{}{"V": "v2"}}},
+			"shared2": map[string]interface{}{"env": map[string]interface{}{"D": "d-three"}, "variables": map[string]interface{}{"Y": "y-three"}, "context": "cx"},
+		}, "contexts": map[string]interface{}{"cx": map[string]interface{}{"env": map[string]interface{}{"L": "l-three"}}}},
 	}
 	for i, name := range []string{"main." + fa, "one." + f1, "two." + f2, "three." + f3} {
 		text, _ := serialise(docs[i], strings.TrimPrefix(filepath.Ext(name), "."))
@@ -673,9 +679,11 @@ func tripleImportRun(fa, f1, f2, f3 string) (string, cliResult) {
 	r := runTaskctl(dir, nil, 15*time.Second, "-c", cfgPath, "list")
 	out := fmt.Sprintf("list exit=%d\n%s\n", r.exit, r.stdout)
 	if r.exit == 0 {
-		r2 := runTaskctl(dir, nil, 15*time.Second, "-c", cfgPath, "show", "shared")
-		r3 := runTaskctl(dir, nil, 15*time.Second, "-c", cfgPath, "--output", "raw", "-q", "shared")
-		out += fmt.Sprintf("show exit=%d\n%s\nrun exit=%d\n%s\n", r2.exit, r2.stdout, r3.exit, r3.stdout)
+		for _, tn := range []string{"shared", "shared2"} {
+			r2 := runTaskctl(dir, nil, 15*time.Second, "-c", cfgPath, "show", tn)
+			r3 := runTaskctl(dir, nil, 15*time.Second, "-c", cfgPath, "--output", "raw", "-q", tn)
+			out += fmt.Sprintf("show %s exit=%d\n%s\nrun exit=%d\n%s\n", tn, r2.exit, r2.stdout, r3.exit, r3.stdout)
+		}
 	}
 	return out, r
 }
